@@ -210,6 +210,41 @@ func init() {
 		x.errAxioms()
 		return Val{T: x.errIs(a[0].T, a[1].T), Typ: boolT}, true
 	})
+	reg("errors.As", func(x *Exec, fr *Frame, st *State, cc *ssa.CallCommon, a []Val) (Val, bool) {
+		// errors.As(err, &target): on success target holds a non-nil value
+		// found in err's chain (of target's type); object invariants of
+		// that type hold for it.
+		b := x.freshVal(st, "as_ok", boolT)
+		if a[1].Dyn != nil && a[1].Dyn.Loc != nil {
+			l := a[1].Dyn.Loc
+			T := l.Elem
+			if T == nil && l.Kind == LCell {
+				T = l.Cell.typ
+			}
+			if T != nil {
+				old := x.load(st, l, T)
+				nv := x.freshVal(st, "as_target", T)
+				switch T.Underlying().(type) {
+				case *types.Pointer:
+					st.assume(Implies(b.T, Not(Eq(nv.T, IntLit(0)))))
+					x.knownRef(st, nv.T)
+					if pt, ok := T.(*types.Pointer); ok {
+						if n, ok := pt.Elem().(*types.Named); ok && n.Obj().Pkg() != nil {
+							env := &Env{x: x, st: st, vars: map[string]Val{"self": nv}, pkg: n.Obj().Pkg()}
+							for _, c := range x.cs.ObjInvs[n.Obj().Pkg().Path()+"."+n.Obj().Name()] {
+								st.assume(Implies(b.T, x.evalBool(env, c.Expr)))
+							}
+						}
+					}
+				case *types.Interface:
+					st.assume(Implies(b.T, Not(Eq(nv.T, NilIface))))
+				}
+				st.assume(Implies(Eq(a[0].T, NilIface), Not(b.T)))
+				x.store(st, l, Val{T: Ite(b.T, nv.T, old.T), Typ: T})
+			}
+		}
+		return b, true
+	})
 	reg("errors.New", func(x *Exec, fr *Frame, st *State, cc *ssa.CallCommon, a []Val) (Val, bool) {
 		r := x.freshVal(st, "err", errT)
 		st.assume(Not(Eq(r.T, NilIface)))
@@ -237,12 +272,6 @@ func init() {
 		st.assume(Term{fmt.Sprintf("(forall ((t_w Iface)) (! (= %s %s) :pattern (%s)))", x.errIs(r.T, t).S, Or(alts...).S, x.errIs(r.T, t).S), "Bool"})
 		return r, true
 	})
-	for _, n := range []string{"fmt.Sprintf", "fmt.Sprint", "fmt.Sprintln"} {
-		reg(n, func(x *Exec, fr *Frame, st *State, cc *ssa.CallCommon, a []Val) (Val, bool) {
-			return x.freshVal(st, "sprintf", strT), true
-		})
-	}
-
 	// ---- sync
 	reg("(*sync.Mutex).Lock", func(x *Exec, fr *Frame, st *State, cc *ssa.CallCommon, a []Val) (Val, bool) {
 		x.lockOp(st, a[0], true)
